@@ -8,7 +8,7 @@ import re
 import numpy as np
 
 import implrun as R
-from ctor_args import CTOR, configurations
+from ctor_args import CTOR, configurations, channel_configurations
 
 A = R.A
 DICOM = {'PixelSpacing': (0.7, 0.4), 'RescaleIntercept': -1024.0, 'RescaleSlope': 1.0, 'ConvolutionKernel': 'STANDARD',
@@ -157,6 +157,21 @@ def check_rejects(rng):
     return out
 
 
+SIZE_FREE_DUAL = {'HorizontalFlip', 'VerticalFlip', 'SliceFlip', 'Flip', 'Transpose', 'NoOp', 'RandomRotate90', 'Rotate',
+                  'ShiftScaleRotate', 'RandomScale', 'RandomCropFromBorders', 'PixelDropout'}
+
+
+def shape_free(name, kw):
+    """True when the configuration names no absolute size (so its documentation holds for every volume shape)"""
+    cls = getattr(A, name)
+    if issubclass(cls, A.ImageOnlyTransform):
+        return 'dicom' not in CTOR[name].get('needs', []) and 'apply_to_channel_idx' not in kw
+    if name == 'CoarseDropout':
+        sizes = [kw.get(k) for k in ('max_height', 'max_width', 'max_depth', 'min_height', 'min_width', 'min_depth') if kw.get(k) is not None]
+        return bool(sizes) and all(isinstance(v, float) for v in sizes)
+    return name in SIZE_FREE_DUAL
+
+
 def run(seed=0, tier='quick', hints=None, broken=False):
     rng = random.Random(seed * 179424673 + 8)
     viol, evals, outcomes, seen = [], 0, {}, set()
@@ -192,6 +207,37 @@ def run(seed=0, tier='quick', hints=None, broken=False):
                 outcomes[key] = outcomes.get(key, 0) + 1
                 if bad and bad[0] != 'unsupported-target':
                     viol.append({'site': 'C08:%s:%s' % (name, bad[0]), 'kind': 'total', 'case': case, 'observed': bad[1], 'expected': bad[2]})
+    # configurations that address the channels of the image, on an image with that many channels
+    for name in sorted(CTOR):
+        for ch, kw in channel_configurations(name):
+            for sd in [rng.randint(0, 10 ** 6), R.EXT_BASE, R.EXT_BASE + 0xFFFF]:
+                case = {'name': name, 'kw': jsonable(kw), 'shape': [12, 10, 8], 'seed': sd,
+                        'dtype': {'float': 'float32'}.get(CTOR[name].get('image', 'uint8'), CTOR[name].get('image', 'uint8')),
+                        'channels': ch, 'targets': ['mask'], 'float_header': False}
+                bad = check_total(case)
+                evals += 1
+                seen.add((name, 'channels', ch))
+                if bad and bad[0] != 'unsupported-target':
+                    viol.append({'site': 'C08:%s:%s:channel-configuration' % (name, bad[0]), 'kind': 'total', 'case': case, 'observed': bad[1], 'expected': bad[2]})
+    # configurations without absolute sizes (flips, rotations, rescaling, fractions of the extent, image-only classes)
+    # are documented for EVERY volume shape: each runs on strongly anisotropic and thin volumes too
+    thin_shapes = [[40, 6, 3], [3, 40, 6], [6, 3, 40], [32, 32, 4]]
+    for name in sorted(CTOR):
+        cls = getattr(A, name)
+        for kw in configurations(name):
+            if not shape_free(name, kw):
+                continue
+            for shp, sd in [(shp, sd) for shp in thin_shapes
+                            for sd in ([rng.randint(0, 10 ** 6), R.EXT_BASE + 0xFFFF] + ([] if tier == 'quick' else [R.EXT_BASE, R.EXT_BASE + rng.getrandbits(16), rng.randint(0, 10 ** 6)]))]:
+                case = {'name': name, 'kw': jsonable(kw), 'shape': shp, 'seed': sd,
+                        'dtype': 'uint8' if CTOR[name].get('image') in (None, 'uint8') else {'float': 'float32'}.get(CTOR[name]['image'], CTOR[name]['image']),
+                        'channels': None, 'targets': ['mask', 'keypoints'] if issubclass(cls, A.DualTransform) and name != 'GridDropout' else ['mask'],
+                        'float_header': False}
+                bad = check_total(case)
+                evals += 1
+                seen.add((name, 'thin', tuple(shp)))
+                if bad and bad[0] != 'unsupported-target':
+                    viol.append({'site': 'C08:%s:%s:thin-volume' % (name, bad[0]), 'kind': 'total', 'case': case, 'observed': bad[1], 'expected': bad[2]})
     for site, obs, exp in check_rejects(rng):
         viol.append({'site': 'C08:reject:%s' % site, 'kind': 'reject', 'case': {'seed': seed}, 'observed': obs, 'expected': 'raises ' + exp})
     evals += 20
